@@ -74,6 +74,7 @@ Definition D_LOCAL_CAPS     : Z := 16.
 Definition D_BYTES_RANGE    : Z := 17.
 Definition D_DECRYPT_FRAME  : Z := 18.
 Definition D_JSON_REGS      : Z := 19.
+Definition D_PARSE_ACM      : Z := 21.  (* tools.ParseACM: aux = [Header.GetModuleSubType()], i1 = user area, i2 = serialised module *)
 Definition D_LOCAL_FILES    : Z := 20.  (* tpmdetection.local with a missing device / capability file: aux = [bit 0: device missing, bit 1: caps missing] *)
 
 Definition of_outcome {A} (o : outcome A) (f : A -> list Z) : rd (list Z) := fun s =>
@@ -118,6 +119,7 @@ Definition model (d : Z) (aux i1 i2 : list Z) : res (list Z) :=
   else if d =? D_BYTES_RANGE then run (bytes_range (aux_at aux 0) (aux_at aux 1) (aux_at aux 2)) i1
   else if d =? D_DECRYPT_FRAME then run (decrypt_frame faithful (match i2 with [] => false | _ => true end) i1) i1
   else if d =? D_JSON_REGS then run (parse_registers (S (length i1)) i1 []) []
+  else if d =? D_PARSE_ACM then run (parse_acm_after (aux_at aux 0) faithful i2) i1
   else if d =? D_LOCAL_FILES then run (local_files (Z.odd (aux_at aux 0)) (Z.odd (Z.shiftr (aux_at aux 0) 1)) i1) i1
   else RFuel.
 
